@@ -25,6 +25,7 @@ PID = "C18"
 def hive_reject_job(args):
     jid, hist, base = args
     fp = use_repo()
+    D.WIDX = False
     import pandas as pd
     d = os.path.join(base, "r%d" % jid, "ds")
     shutil.rmtree(os.path.dirname(d), ignore_errors=True)      # a re-run of this job starts clean
